@@ -3,6 +3,7 @@
 package gossip
 
 import (
+	"strings"
 	"fmt"
 	"sync"
 	"testing/synctest"
@@ -70,6 +71,29 @@ func h1GenDriven(prop string) func(rng *simkit.Rand, tier string, idx int) *simk
 		if prop == "C03" && rng.Intn(6) == 0 {
 			c.Family = "h1.driven.oversize"
 			c.Cfg["oversize"] = 1
+			if mps < 320 {
+				c.Cfg["max_packet"] = int64(320 + rng.Intn(200))
+			}
+		}
+		if prop == "C03" && idx%16 == 5 {
+			// a large backlog: one owner publishes hundreds of keys before anybody
+			// has synchronised, then everything must still converge
+			c.Family = "h1.driven.bulk"
+			c.Cfg = map[string]int64{"nodes": int64(rng.Range(2, 3)), "keys": int64(rng.Range(260, 700)), "max_packet": 1400, "valmax": int64(rng.Range(0, 20)),
+				"prejoin": int64(rng.Range(0, 1)), "settle": 1}
+			n := int(c.Cfg["keys"]) + rng.Intn(200)
+			owner := rng.Intn(1 << 16)
+			for i := 0; i < n; i++ {
+				op := simkit.Op{K: "upsert", A: owner, B: i, C: 1 + rng.Intn(3)}
+				if rng.Intn(10) == 0 {
+					op = simkit.Op{K: "delete", A: owner, B: rng.Intn(i + 1)}
+				}
+				c.Script = append(c.Script, op)
+				if rng.Intn(60) == 0 {
+					c.Script = append(c.Script, simkit.Op{K: "round", A: rng.Intn(1 << 16), B: rng.Intn(1 << 16)}, simkit.Op{K: "flush"})
+				}
+			}
+			return c
 		}
 		w := h1Profiles[prop]
 		if w == nil {
@@ -133,7 +157,7 @@ func h1ExecDriven(run *simkit.Run) {
 		w.emitChecks = false
 		w.closeAll()
 	}()
-	if run.Failed() {
+	if run.Stop() {
 		return
 	}
 	keys := c.Int("keys")
@@ -178,7 +202,7 @@ func h1ExecDriven(run *simkit.Run) {
 	writable := func(n *h1Node) bool { return n.alive && !n.left }
 
 	for i, op := range c.Script {
-		if run.Failed() {
+		if run.Stop() {
 			break
 		}
 		run.Step = i
@@ -306,8 +330,8 @@ func h1ExecDriven(run *simkit.Run) {
 		synctest.Wait()
 		w.checkAll(nil)
 	}
-	if !run.Failed() && c.On("settle") {
-		if w.canSettle(c.Int("valmax")) || w.oversize {
+	if !run.Stop() && c.On("settle") {
+		if w.canSettle(c.Int("valmax")) || (w.oversize && w.digestFits()) {
 			w.settle()
 		} else {
 			run.Probe("c03.settle_skipped_small_packets")
@@ -358,7 +382,7 @@ func (w *h1World) flush(max int) int {
 		}
 		w.deliver(p)
 		n++
-		if w.run.Failed() {
+		if w.run.Stop() {
 			break
 		}
 	}
@@ -455,12 +479,13 @@ func (w *h1World) settle() {
 			}
 		}
 		w.checkAll(nil)
-		if run.Failed() {
+		if run.Stop() {
 			return
 		}
 		e1, u1 := w.outstanding()
 		if e1+u1 >= e0+u0 && e0+u0 > 0 {
-			if ok, _ := w.converged(); !ok {
+			if ok, why := w.converged(); !ok {
+				run.Logf("no progress: %s; %s", why, w.membershipString())
 				if w.oversize && w.stuckOnOversize() {
 					run.Fail("C03.progress", "entry-cannot-fit-any-packet", "a full fair sweep transferred nothing: an entry larger than the packet size blocks the node's later versions")
 				} else {
@@ -545,7 +570,7 @@ func h1ExecConcurrent(run *simkit.Run) {
 		w.emitChecks = false
 		w.closeAll()
 	}()
-	if run.Failed() {
+	if run.Stop() {
 		return
 	}
 	x := w.nodes[0]
@@ -664,4 +689,25 @@ func init() {
 		}
 		return h1GenDriven("C17")(rng, tier, idx)
 	}})
+}
+
+func (w *h1World) membershipString() string {
+	var sb strings.Builder
+	for _, n := range w.nodes {
+		if n.g == nil {
+			continue
+		}
+		fmt.Fprintf(&sb, "n%d(alive=%v left=%v):", n.idx, n.alive, n.left)
+		for _, m := range n.g.state.Nodes() {
+			fmt.Fprintf(&sb, " %s@v%d", m.ID, m.Version)
+			if m.Left {
+				sb.WriteString("L")
+			}
+			if m.Unreachable {
+				sb.WriteString("U")
+			}
+		}
+		sb.WriteString("; ")
+	}
+	return sb.String()
 }
